@@ -183,25 +183,38 @@ def rule_pass_through(ctx, rep):
     md = model.func('markdown')
     doc = model.cls('block_token.Document')
     rep.instance('R-PASS-THROUGH')
-    log = []
-    it = Interp(model)
-    it.reset_run(Oracle())
-    docmark = object()
-    it.func_hooks['construct:' + doc.qualname] = lambda interp, cls, args, kwargs: log.append(('Document', args, kwargs)) or docmark
-    rendered = object()
-    inst = Rec('renderer-instance', log, {'render': rendered})
-    factory = Rec('renderer-class', log, inst)
-    inp = object()
-    ret = it.call_function(md, [inp, factory], {})
-    names = [x[0] for x in log]
-    ok = (ret is rendered and ('Document', [inp], {}) in log and names.count('renderer-class') == 1
-          and 'renderer-instance.__enter__' in names and 'renderer-instance.__exit__' in names
-          and ('renderer-instance.render', [docmark], {}) in log
-          and names.index('renderer-instance.__enter__') < names.index('Document') < names.index('renderer-instance.__exit__'))
-    rep.obligation('R-PASS-THROUGH', ok, {'markdown': names})
+    from ..interp import enumerate_paths
+    outcomes = []
+
+    def runner(oracle):
+        log = []
+        it = Interp(model)
+        it.reset_run(oracle)
+        docmark = object()
+        it.func_hooks['construct:' + doc.qualname] = lambda interp, cls, args, kwargs: log.append(('Document', args, kwargs)) or docmark
+        rendered = object()
+        inst = Rec('renderer-instance', log, {'render': rendered})
+        factory = Rec('renderer-class', log, inst)
+        inp = Unknown('input')          # any input: empty or not, str / list / file - nothing may depend on it here
+        try:
+            ret = it.call_function(md, [inp, factory], {})
+        except Raised as r:
+            return False, ['raises %s' % r.exc.kind]
+        names = [x[0] for x in log]
+        ok = (ret is rendered and ('Document', [inp], {}) in log and names.count('renderer-class') == 1
+              and 'renderer-instance.__enter__' in names and 'renderer-instance.__exit__' in names
+              and ('renderer-instance.render', [docmark], {}) in log
+              and names.index('renderer-instance.__enter__') < names.index('Document') < names.index('renderer-instance.__exit__'))
+        return ok, names
+    for trace, (ok_, names_) in enumerate_paths(runner, 64):
+        outcomes.append((ok_, names_))
+    ok = bool(outcomes) and all(o[0] for o in outcomes)
+    names = next((o[1] for o in outcomes if not o[0]), outcomes[0][1] if outcomes else [])
+    rep.obligation('R-PASS-THROUGH', ok, {'markdown': names, 'paths': len(outcomes)})
     if not ok:
-        rep.find('R-PASS-THROUGH', md.short, 'markdown', 'markdown() does not build Document(<its input, unchanged>) inside the '
-                 'renderer context and return renderer.render(document): %s' % names, loc(model.unit_of(md), md.node))
+        rep.find('R-PASS-THROUGH', md.short, 'markdown', 'markdown() has a path on which it does not build Document(<its input, '
+                 'unchanged>) inside the renderer context and return renderer.render(document) - the same text then renders '
+                 'differently depending on how it is supplied: %s' % names, loc(model.unit_of(md), md.node))
     # default renderer is HtmlRenderer
     d = md.node.args.defaults
     ok = len(d) == 1 and model.resolve_expr(md.modname, d[0]) is model.cls('html_renderer.HtmlRenderer')
